@@ -18,7 +18,9 @@ import (
 )
 
 // evalByteCond evaluates a boolean SSA value for text[i] == b; ok=false if not evaluable.
-func evalByteCond(v ssa.Value, text ssa.Value, b int64, depth int) (val bool, ok bool) {
+// A class table indexed by the byte (`quoteTable[s[i]]`, a package-level array filled once by the
+// package initialiser) is read through tableContentsOf.
+func evalByteCond(p *Prog, v ssa.Value, text ssa.Value, b int64, depth int) (val bool, ok bool) {
 	if depth > 8 {
 		return false, false
 	}
@@ -27,8 +29,27 @@ func evalByteCond(v ssa.Value, text ssa.Value, b int64, depth int) (val bool, ok
 		return constBool(x)
 	case *ssa.UnOp:
 		if x.Op == token.NOT {
-			r, ok := evalByteCond(x.X, text, b, depth+1)
+			r, ok := evalByteCond(p, x.X, text, b, depth+1)
 			return !r, ok
+		}
+		if x.Op == token.MUL {
+			if ia, isIA := x.X.(*ssa.IndexAddr); isIA {
+				g, isG := ia.X.(*ssa.Global)
+				idx := ia.Index
+				for {
+					if cv, ok := idx.(*ssa.Convert); ok {
+						idx = cv.X
+						continue
+					}
+					break
+				}
+				if _, isByte := byteAt(idx, text); isG && isByte && p != nil {
+					vals, _, undecided := tableContentsOf(p, g)
+					if undecided == "" && b >= 0 && int(b) < len(vals) {
+						return vals[b] != 0, true
+					}
+				}
+			}
 		}
 	case *ssa.BinOp:
 		num := func(y ssa.Value) (int64, bool) {
@@ -138,7 +159,7 @@ func ruleConsoleQuote(r *Run, p *Prog) {
 					res = -2
 				}
 			case *ssa.If:
-				v, ok := evalByteCond(t.Cond, text, b, 0)
+				v, ok := evalByteCond(p, t.Cond, text, b, 0)
 				if !ok {
 					undec = "condition " + descr(t.Cond) + " at " + p.Pos(t.Pos())
 					res = -2
